@@ -574,7 +574,7 @@ func monC08(f *Facts, explicitCancel bool) []Violation {
 				vs = append(vs, Violation{Property: "C08", Rule: "2:failed-not-success", Norm: "failed-job-reported-success",
 					Msg: fmt.Sprintf("task %s of job %d failed but the job ends as a plain success: %s", firstFailTask, idx, jobStr(fj))})
 			}
-			if cont && !explicitCancel && fj.Started() {
+			if cont && !explicitCancel && fj.Started() && fj.Terminal() {
 				// (3) every task independent of the failure runs to its natural end
 				for _, t := range fj.Tasks {
 					a := map[string]bool{}
